@@ -43,6 +43,10 @@ template <class C> struct Runner {
         } else {
             lc->ok_parses++;
             // every non-empty range must lie inside the input; empty ones may use a placeholder
+            for (int i = 0; i < 7; i++) { long a = o.r[2 * i], b = o.r[2 * i + 1];     // a range is a pair: both ends set or none, in order
+                if ((a == NIL) != (b == NIL)) bad(orig, on, fmt("component %d: one end of the reported range is NULL, the other is not (%s)", i, where));
+                else if (a != NIL && a != OUTSIDE && b != OUTSIDE && a > b) bad(orig, on, fmt("component %d: the reported range ends before it begins (%s)", i, where)); }
+            { int k2 = 0; for (const typename A::Seg *sg = u.pathHead; sg; sg = sg->next, k2++) if (!sg->text.first || !sg->text.afterLast || sg->text.first > sg->text.afterLast) bad(orig, on, fmt("path segment %d: NULL or inverted range (%s)", k2, where)); }
             for (int i = 0; i < 7; i++) { long a = o.r[2 * i], b = o.r[2 * i + 1]; if ((a == OUTSIDE || b == OUTSIDE)) { if (i == 6 || !(a == OUTSIDE && b == OUTSIDE)) bad(orig, on, fmt("component %d range partly outside the input (%s)", i, where)); else { lc->placeholder_ranges++; const typename A::Range *rs[6] = { &u.scheme, &u.userInfo, &u.hostText, &u.portText, &u.query, &u.fragment }; if (rs[i]->first != rs[i]->afterLast) bad(orig, on, fmt("non-empty component %d outside the input (%s)", i, where)); } } }
             int k = 0; for (const typename A::Seg *s = u.pathHead; s; s = s->next, k++) if (k < MAXSEG && (o.seg[2 * k] == OUTSIDE || o.seg[2 * k + 1] == OUTSIDE) && s->text.first != s->text.afterLast) bad(orig, on, fmt("non-empty segment %d outside the input (%s)", k, where));
             A::FreeUriMembersMm(&u, &led.mm);
